@@ -50,6 +50,10 @@ def gen_scenario(W, o):
                 rb = sc["recv_bytes"]
                 q["body_size"] = W.choice([3, 0, 50, rb + 1, 5 * rb + 2, min(9000, 30 * rb)], p0=0.4)
                 q["expect"] = sc["expect_ok"] and W.chance(o.get("p_expect", 0.4))
+            if o.get("p_blank"):
+                # stray empty lines in front of the request line (a client that ends its bodies with an extra
+                # CRLF, or keeps a connection warm): they are no request
+                q["blank"] = W.choice([0, 1, 2, 3], p0=1.0 - o["p_blank"])
             q["close"] = W.chance(o.get("p_close", 0.06))
             q["v10"] = W.chance(o.get("p_v10", 0.0))
             if q["v10"]:
@@ -135,6 +139,7 @@ def build(tapes, sc, infinite_poll=False, horizon=60.0, stop_at_idle=True, extra
             chunked = q["kind"] == 2 and version == "1.1"
             raw = build_request(method, path, version, hdrs, rb, chunked=chunked,
                                 chunk_sizes=[max(1, len(rb) // 2)] if rb else None)
+            stream += b"\r\n" * q.get("blank", 0)
             head_end = len(stream) + raw.index(b"\r\n\r\n") + 4
             stream += raw
             exp.append({"path": path, "method": method, "body": body, "reqbody": rb or b"",
